@@ -1,10 +1,10 @@
 SPECIFICATION Spec
 CONSTANTS
   Conn <- C2
-  MaxLen = 2
+  MaxLen = 3
   MaxIll = 1
   MaxRot = 1
-  Kinds <- KSmall
+  Kinds <- KTiny
   Cuts <- CutsAll
   Ends <- EndsAll
   NCk = 8
